@@ -41,15 +41,17 @@ inductive Tok where
   | refused             -- real Raft: LogPin / LogUnpin of the next submitted op returned an error (the gate)
   | snapIfNew           -- real Raft: Snapshot() is only attempted when something was applied since the last one
 
-def parseEvent (s : String) : Option (Nat × Tok) := do
+def parseEvent (s0 : String) : Option (Nat × Tok) := do
+  -- `@<k>:<input token>` (kind net) only tells a replay which script token produced this one
+  let s := (s0.splitOn "@").headD s0
   let r ← (s.take 1).toString.toNat?
   let rest := (s.drop 1).toString
   if rest == "a" then pure (r, .evs [.apply])
   else if rest == "b" then pure (r, .evs [.snapBegin])
   else if rest == "p" then pure (r, .evs [.snapPersist])
   else if rest == "s" then pure (r, .evs [.snapBegin, .snapPersist])
-  else if rest == "d" then pure (r, .evs [.shutdown])
-  else if rest == "k" then pure (r, .evs [.kill])
+  else if rest == "d" || rest == "D" then pure (r, .evs [.shutdown])     -- D: the peer was the leader
+  else if rest == "k" || rest == "K" then pure (r, .evs [.kill])
   else if rest == "r" then pure (r, .evs [.restart])
   else if rest == "o" then pure (r, .evs [.offline])
   else if rest.startsWith "i" then do pure (r, .evs [.install (← (rest.drop 1).toString.toNat?)])
@@ -343,6 +345,11 @@ def answer (ws : List String) : String :=
         let feats := a.feats
         let feats := if !raw && gate.any (fun b => !b) then addFeat feats "gate-refused" else feats
         let feats := if raw then addFeat feats "not-reachable-through-commit" else feats
+        let evToks := evT.splitOn ","
+        let feats := if evToks.any (fun t => ((t.splitOn "@").headD t).endsWith "D") then addFeat feats "leader-shutdown" else feats
+        let feats := if evToks.any (fun t => ((t.splitOn "@").headD t).endsWith "K") then addFeat feats "leader-stopped-no-snapshot" else feats
+        let feats := if evToks.any (fun t => t.endsWith ":3C" && (((t.splitOn "@").headD t).drop 1).startsWith "R") then addFeat feats "old-leader-back-replay" else feats
+        let feats := if evToks.any (fun t => t.endsWith ":3C" && (((t.splitOn "@").headD t).drop 1).startsWith "I") then addFeat feats "old-leader-back-install" else feats
         let arm := "arm=" ++ kind ++ " " ++ " ".intercalate (feats.map (fun f => "arm=" ++ kind ++ "+" ++ f))
         if a.beyond then "bad-case beyond-model (op applied on a poisoned FSM)" else
         -- fsmraw: from the first entry the FSM cannot decode on, the history is not one `commit` can produce:
